@@ -13,12 +13,12 @@ namespace Nl
 def Token.text : Token → Text
   | .ident s => s | .int s => s | .float s => s
   | .str s => '"' :: s ++ ['"']
-  | .kwIf => "als".toList | .kwElse => "anders".toList | .kwReturn => "antwoord".toList
-  | .kwFunc => "functie".toList | .kwWhile => "zolang".toList | .kwDeclare => "stel".toList
-  | .kwTrue => "ja".toList | .kwFalse => "nee".toList | .kwBreak => "stop".toList
-  | .kwContinue => "volgende".toList
-  | .lte => "<=".toList | .gte => ">=".toList | .eq => "==".toList | .neq => "!=".toList
-  | .and => "&&".toList | .or => "||".toList
+  | .kwIf => ['a', 'l', 's'] | .kwElse => ['a', 'n', 'd', 'e', 'r', 's'] | .kwReturn => ['a', 'n', 't', 'w', 'o', 'o', 'r', 'd']
+  | .kwFunc => ['f', 'u', 'n', 'c', 't', 'i', 'e'] | .kwWhile => ['z', 'o', 'l', 'a', 'n', 'g'] | .kwDeclare => ['s', 't', 'e', 'l']
+  | .kwTrue => ['j', 'a'] | .kwFalse => ['n', 'e', 'e'] | .kwBreak => ['s', 't', 'o', 'p']
+  | .kwContinue => ['v', 'o', 'l', 'g', 'e', 'n', 'd', 'e']
+  | .lte => ['<', '='] | .gte => ['>', '='] | .eq => ['=', '='] | .neq => ['!', '=']
+  | .and => ['&', '&'] | .or => ['|', '|']
   | .assign => ['='] | .semi => [';'] | .comma => [','] | .dot => ['.']
   | .lparen => ['('] | .rparen => [')'] | .lbrace => ['{'] | .rbrace => ['}']
   | .lbracket => ['['] | .rbracket => [']']
